@@ -139,3 +139,47 @@ fn c25_map_history_4() {
 fn c25_release_on_drop() {
     history(2, true);
 }
+
+// ---- zero-sized values: nothing is allocated for them, but their destructor still has to run --------------------------
+static mut Z_DROPPED: u32 = 0x253;
+/// A zero-sized value with an observable destructor (a guard / token type).
+struct Z;
+impl Drop for Z {
+    fn drop(&mut self) {
+        unsafe { Z_DROPPED += 1 };
+    }
+}
+
+/// Zero-sized values follow the same rules as any other value: an overwritten or removed one is handed back (and dropped by
+/// the caller), one still stored is dropped with the local storage - exactly once each.
+#[kani::proof]
+#[kani::unwind(6)]
+fn c25_zero_sized_values_are_released_too() {
+    unsafe { Z_DROPPED = 0 };
+    let local = CoroutineLocal::default();
+    let overwrite: bool = kani::any();
+    let remove: bool = kani::any();
+    kani::assert(local.put("a", Z).is_none(), "first put under the key returns None");
+    let mut created = 1u32;
+    if overwrite {
+        let prev = local.put("a", Z);
+        created += 1;
+        kani::assert(prev.is_some(), "put returns the value previously stored under the key");
+        drop(prev);
+        unsafe { kani::assert(Z_DROPPED == 1, "the overwritten value was handed back and dropped by the caller, once") };
+    }
+    kani::assert(local.get::<Z>("a").is_some(), "the value is stored");
+    if remove {
+        let r = local.remove::<Z>("a");
+        kani::assert(r.is_some(), "remove returns the stored value");
+        drop(r);
+        kani::assert(local.get::<Z>("a").is_none(), "removed");
+    }
+    let before = unsafe { Z_DROPPED };
+    drop(local);
+    unsafe {
+        kani::assert(Z_DROPPED == created, "every zero-sized value has been dropped exactly once after the local storage is gone");
+        kani::assert(remove || Z_DROPPED == before + 1, "the value still stored is dropped together with the local storage");
+    }
+    kani::cover!(overwrite && !remove, "overwritten, then dropped with the storage");
+}
